@@ -59,6 +59,7 @@ type opRec struct {
 	desc    string
 	kind    string // blob | chunked | put | deltag | deldig | delblob | gc
 	subject string // for manifest put / delete with subject
+	k5      bool   // put of a manifest that was deleted by digest while a stored index still lists it (recorded finding K5)
 	man     string // manifest digest concerned
 	writes  map[string]bool
 	repo    string
@@ -279,6 +280,7 @@ func batch(r *vh.Run, i int) {
 				mm, tag = f.mm, f.tag
 			}
 			rec.kind, rec.desc, rec.subject, rec.man = "put", "put "+mm.Name+" as "+tag, mm.Subject, mm.D
+			rec.k5 = w.K5Entry(repo, mm.D)
 			rec.writes[mm.D] = true
 			rs, ok := w.PutManifest(repo, mm, tag)
 			if (rs.Status == 201) != ok {
@@ -507,6 +509,12 @@ func batch(r *vh.Run, i int) {
 			case rec.subject != "" && (onlyRefLag(dB, w.NameOf(rec.subject)) || onlyRefLag(dA, w.NameOf(rec.subject))):
 				// K2: a request with subject performs two index writes; between them only referrers(subject) lags by the manifest
 				r.Violation("K2:torn-subject-op", fmt.Sprintf("crash image %d (%s, request %s in flight): %v", k, im.ev, rec.desc, dA), wit)
+			case rec.k5 && onlyManServed(dB, w.NameOf(rec.man)):
+				// K5 at a crash point: the manifest had been deleted by digest while a stored index went on listing it.
+				// The re-push has put its bytes back (the blob is renamed into place before the index is written); a
+				// process that dies right there leaves a directory whose reload serves the manifest through that index -
+				// before its own entry and tag exist
+				r.Violation("K5:crash-image-repush", fmt.Sprintf("crash image %d (%s, request %s in flight): %v", k, im.ev, rec.desc, dB), wit)
 			default:
 				short := dA
 				if len(dB) < len(dA) {
@@ -604,6 +612,19 @@ func generalize(ev string) string {
 		b = "blob"
 	}
 	return strings.Join(f[:len(f)-2], " ") + " " + b
+}
+
+// onlyManServed: the only difference to the state before the request is that the manifest is served by digest.
+func onlyManServed(diffs []string, name string) bool {
+	if len(diffs) == 0 {
+		return false
+	}
+	for _, d := range diffs {
+		if !strings.HasPrefix(d, "manifest "+name+" ok, specification") {
+			return false
+		}
+	}
+	return true
 }
 
 func onlyRefLag(diffs []string, subjName string) bool {
